@@ -52,7 +52,12 @@ def translate():
     # the lazily evaluated gadget variable (lazy.rs), executed symbolically in each of its three states
     lout = os.path.join(LEAN, 'Decaf', 'Generated', 'Lazy.lean')
     rc5, log5 = sh([sys.executable, os.path.join(VERIF, 'translator', 'extract_lazy.py'), REPO, lout])
-    return rc5 == 0, (log.strip() + '; ' + log2.strip() + '; ' + log3.strip() + '; ' + log4.strip() + '; ' + log5.strip())
+    if rc5 != 0:
+        return False, (log.strip() + '; ' + log2.strip() + '; ' + log3.strip() + '; ' + log4.strip() + '; ' + log5.strip())
+    # the byte-level wrapper functions of the three fields (from_bytes_checked, from_le_bytes_mod_order, to_bytes)
+    wout = os.path.join(LEAN, 'Decaf', 'Generated', 'FieldFns.lean')
+    rc6, log6 = sh([sys.executable, os.path.join(VERIF, 'translator', 'extract_fieldfns.py'), REPO, wout])
+    return rc6 == 0, (log.strip() + '; ' + log2.strip() + '; ' + log3.strip() + '; ' + log4.strip() + '; ' + log5.strip() + '; ' + log6.strip())
 
 
 def formula_status():
@@ -62,6 +67,10 @@ def formula_status():
         d = {}
     try:
         d.update(json.load(open(os.path.join(LEAN, 'Decaf', 'Generated', 'Lazy.index.json')))['functions'])
+    except (OSError, ValueError, KeyError):
+        pass
+    try:
+        d.update(json.load(open(os.path.join(LEAN, 'Decaf', 'Generated', 'FieldFns.index.json')))['functions'])
     except (OSError, ValueError, KeyError):
         pass
     try:
@@ -496,7 +505,7 @@ def main():
                 'translator/extract_formulas.py (Rust statement/expression subset -> Lean; the field-API primitives it maps '
                 '(+ - * square abs is_negative, from_bytes_checked/deserialize_compressed, sqrt_ratio_zeta as the parameter sr; ark-r1cs-std gadget primitives; '
                 'the two square-root tables by name; u64 counters as naturals) are taken by contract)',
-                'translator/extract_opforms.py, extract_convforms.py and extract_lazy.py (impl blocks of the operator and conversion forms, read on denotations; lazy.rs by symbolic execution in each state; '
+                'translator/extract_opforms.py, extract_convforms.py, extract_lazy.py and extract_fieldfns.py (impl blocks of the operator and conversion forms, read on denotations; lazy.rs by symbolic execution in each state; '
                 'assume-guarantee over the forwarding graph)',
                 'correspondence harness + driver (differential testing of the model against the crate)'],
             theorems=thm_names[:400],
